@@ -201,6 +201,30 @@ def oracle(ctx):
             fails.append(f'exit status {r4[0]} although a malformed file was added')
         for f in fails:
             res.oracle_failures.append(dict(op='e2e', input=dict(files=fs, extra=[p for p in v[1] if p not in v[0]], spread=sorted(v[2]), shadow=[p for p in v[4] if p not in v[0]]), impl_output=dict(exit=r0[0], stderr=e2e.error_lines(r0[2])[:6]), oracle_expectation=f[:1500]))
+    # every unit type, every way a single file can be unusable (stated here, not taken from the converters): next to a valid unit,
+    # the run exits 1, an error names the file, no service is generated for it, and the valid unit is generated
+    BREAK = [('unknown key in the own section', lambda ty, t: t + 'Bogus=1\n'), ('unknown key in [Quadlet]', lambda ty, t: t + '[Quadlet]\nBogus=1\n'),
+             ('unterminated header', lambda ty, t: '[Oops\n' + t), ('line without =', lambda ty, t: t + 'NoEqualsSign\n'),
+             ('key before any section', lambda ty, t: 'K=1\n' + t), ('invalid escape in a value', lambda ty, t: t + '[Unit]\nDescription=\\q\n')]
+    singles = []
+    for ty in G.TYPES:
+        good = '[' + G.SEC[ty] + ']\n' + ''.join(b + '\n' for b in G.BASE[ty])
+        for why, f in BREAK:
+            singles.append((ty, why, {'d0/bad.' + ty: f(ty, good), 'd0/ok.container': '[Container]\nImage=localhost/ok\n'}))
+    for (ty, why, files), r in zip(singles, e2e.pmap(lambda x: run_set(x[2]), singles)):
+        res.oracle_evals += 1
+        srcs = by_source(r[1], r[3])
+        fails = []
+        if r[0] != 1:
+            fails.append(f'exit status {r[0]} although bad.{ty} cannot be used ({why})')
+        if not any('ERROR' in l and 'bad.' + ty in l for l in r[2].split('\n')):
+            fails.append(f'no error names bad.{ty} ({why}): {e2e.error_lines(r[2])[:4]}')
+        if 'bad.' + ty in srcs:
+            fails.append(f'a service was generated for bad.{ty} ({why})')
+        if 'ok.container' not in srcs:
+            fails.append(f'the valid unit beside bad.{ty} was not generated')
+        for f in fails:
+            res.oracle_failures.append(dict(op='e2e', input=files, impl_output=dict(exit=r[0], stderr=e2e.error_lines(r[2])[:4]), oracle_expectation=f))
     # references between units of the *same* priority (a container joining another container's network): the result must
     # not depend on which of the two is discovered first
     for a, b in (('web', 'db'), ('a', 'z'), ('z', 'a'), ('front', 'back')):
